@@ -25,6 +25,22 @@ theorem C02_update_preserves_measure (bi bj mu sigma restB restM F : Rat)
   · intro _ hs
     rw [hs]; ring
 
+/-- **a calibrated tree is a fixed point of message passing, and a message sent twice counts once**: when the sender's
+    marginal σ already equals the sepset belief μ, the update β_j ← β_j·σ/μ changes nothing (where μ = 0 the code's
+    0/0 = 0 meets β_j = 0, the support condition); hence right after a message i → j (μ is now σ) a second copy of it
+    multiplies β_j by σ/σ = 1 - the result of calibration does not depend on how often the schedule repeats an edge -/
+theorem C02_calibrated_fixed_point (bj mu sigma : Rat) :
+    (sigma = mu → mu ≠ 0 → bj * (sigma / mu) = bj) ∧
+    (sigma = mu → mu = 0 → bj = 0 → bj * 0 = bj) ∧
+    (sigma ≠ 0 → (bj * (sigma / mu)) * (sigma / sigma) = bj * (sigma / mu)) := by
+  refine ⟨?_, ?_, ?_⟩
+  · intro h hne
+    rw [h, div_self hne, mul_one]
+  · intro _ _ hb
+    rw [hb, zero_mul]
+  · intro hs
+    rw [div_self hs, mul_one]
+
 /-- `g` ignores the variables of `vs` -/
 def IndepOf (g : Asg → Rat) (vs : List Var) : Prop := ∀ a v x, v ∈ vs → g (upd a v x) = g a
 
